@@ -585,6 +585,9 @@ def check_case(res, c, outs_, tr_lines, pc_lines, stats, case_of_order):
         stats["orders"] += 1
         case_of_order[oid] = (c, oi)
         bad = [s for s in steps if s.exc is not None]
+        if bad and bad[0].exc[0] == "hang":     # running time is not part of the statement: this order is not judged, counted
+            stats["orders_cut_short_by_a_slow_call"] = stats.get("orders_cut_short_by_a_slow_call", 0) + 1
+            continue
         if bad:
             k = bad[0].exc[0]
             viol(("no-return:" if k == "hang" else "crash:" if k.startswith("crash") else "unexpected-exception:") + bad[0].cmd.split()[0],
